@@ -95,14 +95,19 @@ fn check_case_inner(case: &Case) -> CaseResult {
     }
 
     let block = case.delivery.block_size();
-    let small_block = matches!(block, Some(b) if b < 2);
+    let small_block = case.delivery.any_block_below_2();
+    let mut calls = 0usize;
+    let mut next_block = || {
+        calls += 1;
+        case.delivery.block_size_at(calls - 1)
+    };
     let mut reader = CyclicReader::new(&stream, &case.delivery);
     let mut sr = StreamReader::new();
     let judge = StreamReader::chunk_judge(max_size, limit);
     let describe = |i: usize| format!("record #{i} (block size {block:?}, max size {max_size}, limit {limit:?}, stream {})", show(&stream));
     for (i, (want_bytes, want_range)) in expected.iter().enumerate() {
         let got = sr
-            .next_record_bytes(&mut reader, &judge, block)
+            .next_record_bytes(&mut reader, &judge, next_block())
             .map_err(|e| Fail::new("reader:io-error", format!("next_record_bytes failed although the reader only interrupts: {e}")))?;
         let Some((iovec, range)) = got else {
             return Err(Fail::new(
@@ -136,7 +141,7 @@ fn check_case_inner(case: &Case) -> CaseResult {
         }
     }
     for extra in 0..3 {
-        match sr.next_record_bytes(&mut reader, &judge, block) {
+        match sr.next_record_bytes(&mut reader, &judge, next_block()) {
             Ok(None) => {}
             Ok(Some((iovec, range))) => {
                 let bytes = iovec.flatten().unwrap_or_default();
@@ -169,6 +174,7 @@ fn check_case_inner(case: &Case) -> CaseResult {
         .label_if(case.max_size.is_some(), "size_limit")
         .label_if(expected.len() >= 3, ">=3_records")
         .label_if(small_block, "block<2")
+        .label_if(!case.delivery.blocks.is_empty(), "block_size_changes_between_calls")
         .label_if(reader.interrupts > 0, "eintr")
         .label_if(expected.iter().any(|(b, _)| b.len() > 252), "multi_chunk_record")
         .label_if(expected.iter().any(|(b, _)| b.len() > 64_260), "record>64260")
@@ -187,6 +193,7 @@ pub fn long_case_strategy() -> impl Strategy<Value = Case> {
     )
         .prop_map(|(stream, mut delivery, max_size, limit, block, nudges)| {
             delivery.block = block;
+            delivery.blocks.clear();
             Case {
                 stream,
                 delivery,
@@ -210,6 +217,7 @@ pub fn large_case_strategy() -> impl Strategy<Value = Case> {
     )
         .prop_map(|(stream, mut delivery, block, max_size, limit, nudges)| {
             delivery.block = block;
+            delivery.blocks.clear();
             Case {
                 stream,
                 delivery,
@@ -269,6 +277,7 @@ pub fn aligned_case_strategy() -> impl Strategy<Value = Case> {
     )
         .prop_map(|(block, multiple, delta, tail, after, mut nudges, mut delivery)| {
             delivery.block = block;
+            delivery.blocks.clear();
             let b = delivery.block_size().unwrap_or(4096);
             // Mostly flush between records, so that the next block goes to a fresh arena chunk.
             nudges.push(super::codec::Nudge::Flush);
@@ -332,6 +341,7 @@ fn truncated_logs() -> Vec<Case> {
                     block,
                     arena_prep: 0,
                     big_chunk: false,
+                    blocks: vec![],
                 },
                 max_size: None,
                 limit: None,
@@ -361,7 +371,7 @@ fn replay(_ctx: &Ctx, _group: &str, case: &Value) -> CaseResult {
 pub fn def() -> PropDef {
     PropDef {
         id: "C06",
-        rule: "A case is (stream description, delivery, judge parameters): streams and deliveries as in C08 (records, torn and corrupted records, garbage, lone FE, 0..3 delimiters after each token, whole-stream truncation; scripted short reads / EINTR, block sizes {0,1,2,3,4,5,7,8,64,4096,70000,default}, arena preparation); the standard judge gets a size limit placed at the decoded size of some valid record -1/0/+1 and an offset limit placed at the start of some segment -1/0/+1 (or none). Oracle: split the stream at every FE FD with an independent splitter, keep non-empty segments up to the first one starting at or after the limit, keep those the reference decoder accepts with decoded size <= max; next_record_bytes must return exactly that list of (bytes, byte range), then None three times, without error or panic; last_sentinel_offset is the start of the last delimiter read. A small log truncated at every byte is enumerated; long-streams uses up to 70 tokens (several arena chunks' worth of records) with block sizes 3..4096, so that reads cross arena chunk boundaries in many alignments; block-aligned-tails lays out valid filler records so that a record with a 00 00 final header (252- or 504-byte payload) or a short record ends 0..4 bytes around an I/O block boundary (blocks 64 / 100 / 256 / 1000 / 2048 / 4096), with the arena flushed between records through the returned record's arena(). large-records: 1..4 tokens built on payloads of up to 140000 bytes (one in nine of 0.5..1.3 MB: more than a default I/O block and than the arena's largest chunk), valid, torn or corrupted, block sizes >= 64 and default. Non-trivial: >= 2 returned records with a skipped (invalid / oversized / empty-payload) segment between two of them, or a read that split an FE|FD pair in a stream with at least one returned record. Distinct: hash of the serialised case.",
+        rule: "A case is (stream description, delivery, judge parameters): streams and deliveries as in C08 (records, torn and corrupted records, garbage, lone FE, 0..3 delimiters after each token, whole-stream truncation; scripted short reads / EINTR, block sizes {0,1,2,3,4,5,7,8,64,4096,70000,default}, arena preparation); in one delivery out of four every next_record_bytes call gets its own io_block_size; the standard judge gets a size limit placed at the decoded size of some valid record -1/0/+1 and an offset limit placed at the start of some segment -1/0/+1 (or none). Oracle: split the stream at every FE FD with an independent splitter, keep non-empty segments up to the first one starting at or after the limit, keep those the reference decoder accepts with decoded size <= max; next_record_bytes must return exactly that list of (bytes, byte range), then None three times, without error or panic; last_sentinel_offset is the start of the last delimiter read. A small log truncated at every byte is enumerated; long-streams uses up to 70 tokens (several arena chunks' worth of records) with block sizes 3..4096, so that reads cross arena chunk boundaries in many alignments; block-aligned-tails lays out valid filler records so that a record with a 00 00 final header (252- or 504-byte payload) or a short record ends 0..4 bytes around an I/O block boundary (blocks 64 / 100 / 256 / 1000 / 2048 / 4096), with the arena flushed between records through the returned record's arena(). large-records: 1..4 tokens built on payloads of up to 140000 bytes (one in nine of 0.5..1.3 MB: more than a default I/O block and than the arena's largest chunk), valid, torn or corrupted, block sizes >= 64 and default. Non-trivial: >= 2 returned records with a skipped (invalid / oversized / empty-payload) segment between two of them, or a read that split an FE|FD pair in a stream with at least one returned record. Distinct: hash of the serialised case.",
         assumptions: &[
             "only the standard judge (chunk_judge) is modelled",
             "readers only deliver short reads and Interrupted errors",
